@@ -62,6 +62,7 @@ void harness(void) {
 	VCOVER(a.nseg == VM && b.nseg == VM && a.seg[VM - 1].len == VL, "both lists have VM segments, a long one");
 	VCOVER(a.hostkind == VU_HK_IP6 && b.hostkind == VU_HK_IP6 && !a_null && !b_null, "two IPv6 hosts");
 
+	VCOVER_END;
 	r = URI_FUNC(EqualsUri)(a_null ? NULL : &ua, b_null ? NULL : &ub);
 
 	VPOST("C11", r == URI_TRUE || r == URI_FALSE, "EqualsUri returns a UriBool");
@@ -76,8 +77,8 @@ void harness(void) {
 			expect || r == URI_FALSE, "EqualsUri: any differing component (incl. absolute-path flag, absent vs empty) => FALSE",
 			"C11-abspath-ignored-when-scheme-present");
 	}
-	VCOVER(!a_null && !b_null && r == URI_TRUE && a.nseg == VM && a.query.len == VL, "equal pair with VM segments and a long query");
-	VCOVER(!a_null && !b_null && r == URI_FALSE, "unequal pair");
+	VCOVER_POST(!a_null && !b_null && r == URI_TRUE && a.nseg == VM && a.query.len == VL, "equal pair with VM segments and a long query");
+	VCOVER_POST(!a_null && !b_null && r == URI_FALSE, "unequal pair");
 	/* frame: neither argument is modified (structures, watched node, watched text cell) */
 	VFRAME("C11,C12,C20", same_struct(&ua, &sa) && same_struct(&ub, &sb), "EqualsUri leaves both Uri structures bit-for-bit unchanged");
 	VFRAME("C11,C12,C20", pna == NULL || (pna->next == na.next && pna->text.first == na.text.first && pna->text.afterLast == na.text.afterLast
